@@ -228,11 +228,15 @@ def via_ok(_atom: ast.AST) -> bool:
 class _Analysis:
     """Per-function flow analysis producing the set of exits that lack a guard."""
 
-    def __init__(self, prog: Program, ob: Obligation, guarding: Set[str], wrappers: Dict[str, FuncInfo]):
+    def __init__(self, prog: Program, ob: Obligation, guarding: Set[str], wrappers: Dict[str, FuncInfo], weak: Optional[Set[str]] = None):
         self.prog = prog
         self.ob = ob
         self.fi = ob.fi
-        self.guarding = guarding
+        # `weak`: functions every normal exit of which is behind a CRS comparison but which *return* (None, False ..) on a
+        # mismatch instead of raising; handing the operands to one of them guards the caller in the same weak sense
+        self.weak = weak or set()
+        self.via_weak = False
+        self.guarding = guarding | self.weak
         self.wrappers = wrappers
         self.org = Origins(self.fi)
         if ob.helper:
@@ -441,6 +445,8 @@ class _Analysis:
                 callees = cands
         if not callees or not all(t.qual in self.guarding for t in callees):
             return None
+        if any(t.qual in self.weak for t in callees):
+            self.via_weak = True
         roots: Set[str] = set()
         if isinstance(c.func, ast.Attribute):
             roots |= self.org.roots(c.func.value)
@@ -540,7 +546,7 @@ class _Analysis:
             loop_exit=self.loop_exit,
         ).run()
         self.flow = fl
-        self.returns_on_mismatch = any("MISMATCH" in ex.facts for ex in fl.normal_exits())
+        self.returns_on_mismatch = any("MISMATCH" in ex.facts for ex in fl.normal_exits()) or self.via_weak
         bad: List[Tuple[str, int, str]] = []
         for ex in fl.normal_exits():
             if "GUARDED" in ex.facts:
@@ -651,6 +657,7 @@ def rule_crsguard(prog: Program, modules: Optional[Set[str]] = None, must_guard:
                 decorated[fi.qual] = tg.qual
     by_qual = {o.fi.qual: o for o in obligations}
     results: Dict[str, Tuple[List[Tuple[str, int, str]], _Analysis]] = {}
+    weak: Set[str] = set()
     for _ in range(8):
         changed = False
         for ob in obligations:
@@ -663,9 +670,12 @@ def rule_crsguard(prog: Program, modules: Optional[Set[str]] = None, must_guard:
                     guarding.add(ob.fi.qual)
                     changed = True
                 continue
-            an = _Analysis(prog, ob, guarding, wrappers)
+            an = _Analysis(prog, ob, guarding, wrappers, weak)
             bad = an.run()
             results[ob.fi.qual] = (bad, an)
+            if not bad and an.kinds and not an.bad_raises and an.returns_on_mismatch and ob.fi.qual not in weak:
+                weak.add(ob.fi.qual)
+                changed = True
             if not bad and an.kinds and not an.bad_raises and not an.returns_on_mismatch:
                 # usable as a guarding callee only if it never returns normally on a mismatch
                 guarding.add(ob.fi.qual)
@@ -893,7 +903,17 @@ def rule_retag(prog: Program, modules: Set[str]) -> List[Instance]:
             k += 1
             cid = f"{fi.qual}#retag:{nm}:{k}"
             where = fi.where(n)
+            if crs_arg is None and first_star is not None and first_star == 0 and not any(kk.arg == kw for kk in n.keywords):
+                out.append(Instance("R-RETAG", cid, UNDET, f"`{short(n)}` is built from a starred sequence only: whether a CRS is among its components is not visible here", where))
+                continue
             if crs_arg is None or (isinstance(crs_arg, ast.Constant) and crs_arg.value is None):
+                explicit_none = crs_arg is not None
+                # a box the author explicitly labels CRS-less, computed from a pixel translation that was guarded as near-integer:
+                # the pixel-plane box of the grid-compatibility helpers, wherever that code lives (function, method, other module)
+                pixel_plane = explicit_none and nm == "BoundingBox" and any(isinstance(x, ast.Call) and call_name(x) == "is_almost_int" for x in walk_own(fi.node))
+                if pixel_plane:
+                    out.append(Instance("R-RETAG", cid, INFO, "explicit crs=None on a box computed from a near-integer pixel translation: pixel-plane box by contract", where, nontrivial=False))
+                    continue
                 if fi.qual in RETAG_NONE_OK:
                     out.append(Instance("R-RETAG", cid, INFO, f"crs=None by contract: {RETAG_NONE_OK[fi.qual]}", where, nontrivial=False))
                 else:
